@@ -755,7 +755,20 @@ pub fn check_script(s: &Script) -> Option<(String, String)> {
     } else {
         let want = model_meta(s);
         match catch(std::panic::AssertUnwindSafe(|| run_meta(s))) {
-            Ok(got) if got == want && has_no_phantom(&got).is_ok() => None,
+            Ok(got) if got == want && has_no_phantom(&got).is_ok() => {
+                // what was assembled in compile-time form arrives unchanged in portable form (names, docs, order, indices)
+                let conv = catch(std::panic::AssertUnwindSafe(|| {
+                    use scale_info::IntoPortable;
+                    got.clone().into_portable(&mut scale_info::Registry::new())
+                }));
+                match conv {
+                    Ok(p) => {
+                        let mut pairs = vec![];
+                        crate::oracle::cmp_type(&want, &p, &mut pairs).err().map(|e| ("builder-portable-image:meta".into(), format!("the assembled type converted to portable form is not what was supplied: {e}")))
+                    }
+                    Err(p) => Some(("builder-panic".into(), format!("into_portable of the assembled type panicked: {p}"))),
+                }
+            }
             Ok(got) => {
                 if let Err(e) = has_no_phantom(&got) {
                     return Some(("builder-phantom:meta".into(), e));
